@@ -5,6 +5,7 @@ package ed25519
 import (
 	"crypto"
 	stded "crypto/ed25519"
+	"io"
 )
 
 func verifEq(a, b []byte) bool {
@@ -20,9 +21,20 @@ func verifEq(a, b []byte) bool {
 	return eq
 }
 
-type verifReader struct{ data []byte }
+// verifReader hands out its data in pieces of at most chunk bytes (chunk <= 0: everything that fits),
+// then io.EOF: the io.Reader contract allows any such short read.
+type verifReader struct {
+	data  []byte
+	chunk int
+}
 
 func (r *verifReader) Read(p []byte) (int, error) {
+	if len(r.data) == 0 {
+		return 0, io.EOF
+	}
+	if r.chunk > 0 && len(p) > r.chunk {
+		p = p[:r.chunk]
+	}
 	n := copy(p, r.data)
 	r.data = r.data[n:]
 	return n, nil
@@ -32,10 +44,12 @@ func (r *verifReader) Read(p []byte) (int, error) {
 // algebraic model and uninterpreted SHA-512), signing is deterministic, Verify accepts the
 // signature, and the crypto.Signer interface behaves as documented.
 //
-//verif:run quick ml=0,3
-//verif:run thorough ml=1,64
+//verif:run quick ml=0 chunk=0 short=0
+//verif:run quick ml=3 chunk=1 short=31
+//verif:run quick ml=3 chunk=16 short=16
+//verif:run thorough ml=1,64 chunk=0,5,31,32,33 short=1,17
 //verif:big int
-func VerifC07(ml int) {
+func VerifC07(ml, chunk, short int) {
 	seed := verifBytes("seed", 32)
 	msg := verifBytes("msg", ml)
 	priv := NewKeyFromSeed(seed)
@@ -56,7 +70,18 @@ func VerifC07(ml int) {
 	verifAssert("signer.same", err == nil && verifEq(s2, sig))
 	s3, err3 := priv.Sign(nil, msg, crypto.SHA512)
 	verifAssert("signer.refuses.prehash", err3 != nil && s3 == nil)
+	// every other hash identifier (symbolic) is refused as well, exactly Hash(0) signs
+	hv := verifU8("hash")
+	s4, err4 := priv.Sign(nil, msg, crypto.Hash(hv))
+	verifAssert("signer.signs.iff.unhashed", (err4 == nil) == (hv == 0))
+	if err4 != nil {
+		verifAssert("signer.refused.nosig", s4 == nil)
+	}
 
-	p2, k2, gerr := GenerateKey(&verifReader{data: append([]byte{}, seed...)})
+	// GenerateKey consumes exactly 32 bytes of entropy however the reader delivers them
+	// (pieces of `chunk` bytes), and fails without a key when fewer are available
+	p2, k2, gerr := GenerateKey(&verifReader{data: append(append([]byte{}, seed...), 0xAA), chunk: chunk})
 	verifAssert("generate", gerr == nil && verifEq(k2, priv) && verifEq(p2, pub))
+	p3, k3, gerr3 := GenerateKey(&verifReader{data: append([]byte{}, seed[:short]...), chunk: chunk})
+	verifAssert("generate.short.entropy", gerr3 != nil && p3 == nil && k3 == nil)
 }
